@@ -39,11 +39,14 @@ struct Runner;
 static Runner *g_runner = nullptr;
 static ShardCtl *g_ctl = nullptr;
 static int g_failfd = -1;
+static double g_t_end = 1e300;         // wall-clock deadline of the current run: long-running case bodies poll it (deadline_hit) and stop early
 static FILE *g_hashf = nullptr;      // optional per-case observation hashes (cross-build differential)
 inline void emit_hash(uint64_t idx, uint64_t h) { if (g_hashf) fprintf(g_hashf, "%llu %016llx\n", (unsigned long long)idx, (unsigned long long)h); }
 static const unsigned MAX_FAIL_PER_SHARD = 25;
 
 // called by a case body (in the child) when an oracle fails; the run continues
+inline bool deadline_hit(ShardCtl &c) { if (now_s() > g_t_end) { c.cut = 1; return true; } return false; }
+
 inline void report_fail(uint64_t idx, const JObj &desc) {
     if (!g_ctl) { printf("FAIL %s\n", desc.str().c_str()); return; }
     if (g_ctl->nfail >= MAX_FAIL_PER_SHARD) { g_ctl->nfail = g_ctl->nfail + 1; return; }
@@ -89,7 +92,7 @@ struct Runner {
     }
 
     void child(int s, ShardCtl *ctl, double t_end) {
-        g_ctl = ctl;
+        g_ctl = ctl; g_t_end = t_end;
         int efd = open(errpath(s).c_str(), O_WRONLY|O_CREAT|O_TRUNC, 0644);
         if (efd >= 0) { dup2(efd, 2); close(efd); }
         g_failfd = open(failpath(s).c_str(), O_WRONLY|O_CREAT|O_APPEND, 0644);
@@ -104,6 +107,7 @@ struct Runner {
             ctl->done = ctl->done + 1;
             ctl->next = i + nshards;
             if (ctl->nfail > MAX_FAIL_PER_SHARD) { ctl->cut = 1; break; }
+            if (ctl->cut) break;
         }
         alarm(0);
         ctl->cur = ~0ULL;
